@@ -1,5 +1,5 @@
 (* PV.C01.Examples — non-vacuity: concrete non-trivial inputs meeting the hypotheses of the theorems. *)
-From Coq Require Import QArith List Bool PArith Arith.
+From Coq Require Import QArith List Bool PArith Arith Lia.
 From PV Require Import Base.PyData Base.Expr Base.Interp Base.Stmts C01.Model C01.Refuted C01.ProofsParams.
 Import ListNotations.
 
@@ -101,4 +101,23 @@ Example blocks_example :
   map rv_etas (rvs_from_blocks false ex_blocks) = [[1; 2]; [3; 4]; [5]]%nat /\
   map rv_level (rvs_from_blocks false ex_blocks) = [IOV; IOV; IIV] /\
   map rv_cov (rvs_from_blocks false ex_blocks) = [[0; 1; 2]; [0; 1; 2]; [3]]%nat.
+Proof. repeat split; vm_compute; reflexivity. Qed.
+
+(* sdcorr_forms / parse_form_spec on the nmhelp-style sample: S = [[4]; [1, 9/4]] (sd 2 and 3/2, r = 1/3) *)
+Definition ex_S : list (list Q) := [[4%Q]; [1%Q; (9 # 4)%Q]].
+Example forms_nonvacuous :
+  encode sqrt_exact FSdCorr ex_S = [[2%Q]; [(1 / (2 * (3 # 2)))%Q; (3 # 2)%Q]] /\
+  map (map Qred) (parse_form sqrt_exact FSdCorr (encode sqrt_exact FSdCorr ex_S)) = map (map Qred) ex_S /\
+  map (map Qred) (parse_form sqrt_exact FVarCorr (encode sqrt_exact FVarCorr ex_S)) = map (map Qred) ex_S /\
+  map (map Qred) (parse_form sqrt_exact FSdCov (encode sqrt_exact FSdCov ex_S)) = map (map Qred) ex_S /\
+  (forall i, (i < length ex_S)%nat -> (0 < tget ex_S i i)%Q).
+Proof.
+  repeat split; try (vm_compute; reflexivity).
+  intros i Hi. destruct i as [|[|i]]; [reflexivity | reflexivity | cbn in Hi; lia].
+Qed.
+(* CHOLESKY 1 2 3 denotes [[1]; [2, 13]] *)
+Example cholesky_example :
+  match omega_block_parse sqrt_exact 2 false false true [1%Q; 2%Q; 3%Q] with OOk l => map Qred l | _ => [] end = [1%Q; 2%Q; 13%Q] /\
+  omega_block_parse sqrt_exact 3 false false false [1%Q; 2%Q; 3%Q] = OSyntaxError /\
+  omega_block_parse sqrt_exact 2 false false false [1%Q; 2%Q] = OInternalError.
 Proof. repeat split; vm_compute; reflexivity. Qed.
